@@ -8,6 +8,7 @@ import (
 	"sort"
 	"strings"
 	"sync"
+	"syscall"
 	"time"
 
 	api "github.com/polydawn/go-timeless-api"
@@ -242,6 +243,7 @@ func asm14RealExec(c *Ctx, op string) {
 	os.MkdirAll(sandboxOutside, 0755)
 	os.WriteFile(filepath.Join(sandboxOutside, "sentinel"), []byte("s"), 0644)
 	outBefore, _ := Snapshot(sandboxOutside)
+	writeInRw := false
 	run := func(order []int, tag string) (string, Fileset) {
 		root := filepath.Join(base, "root-"+tag)
 		os.MkdirAll(filepath.Join(root, "pre", "existing"), 0755)
@@ -280,6 +282,16 @@ func asm14RealExec(c *Ctx, op string) {
 			res = "err " + catOf(rerr)
 		}
 		var sn Fileset
+		if res == "ok" && writeInRw {
+			for _, i := range order {
+				if ins[i].kind == "rw" {
+					p := filepath.Join(root, ins[i].path)
+					os.WriteFile(filepath.Join(p, "zz-user-write"), []byte("user"), 0644)
+					syscall.Chmod(filepath.Join(p, "hostfile"), 0600)
+					syscall.Chmod(filepath.Join(p, "hostfile"), 0644)
+				}
+			}
+		}
 		if res == "ok" {
 			sn, _ = Snapshot(root)
 			for i := range sn {
@@ -440,6 +452,25 @@ func asm14RealExec(c *Ctx, op string) {
 			}
 		}
 	}
+	// C11 through the assembler: what a user does inside a writable host mount must land in the host directory, never
+	// in a cache shelf (shelves: identity incl. attributes, inode numbers, link counts)
+	shelvesNow := func() string {
+		sh, _ := filepath.Glob(filepath.Join(base, "cache", "tar", "fileset", "*", "*", "*"))
+		sort.Strings(sh)
+		var sb strings.Builder
+		for _, d := range sh {
+			sb.WriteString(d + "\n" + shelfIdentity(d))
+		}
+		return sb.String()
+	}
+	shelves0 := shelvesNow()
+	writeInRw = true
+	run(reverseInts(ident(n)), "w")
+	writeInRw = false
+	if shelves1 := shelvesNow(); shelves1 != shelves0 {
+		c.PropFail("shelf-changed", "a cache shelf changed after writes inside the writable host mounts of an assembly: "+firstDiff(shelves0, shelves1), op)
+	}
+	os.Remove(filepath.Join(host, "zz-user-write"))
 	c.H("real:" + strings.Fields(res0)[0] + ":" + wantInvalid)
 	c.EmitR(op, "skip", "skip")
 	c.Distinct(op)
